@@ -62,7 +62,7 @@ func main() {
 		os.Exit(2)
 	}
 	dir := verifDir()
-	if *mutantSpec != "" {
+	if *mutantSpec != "" || os.Getenv("MHUBSA_INLINEALL") != "" {
 		// mutants never write into the real evidence directory
 		tmp, err := os.MkdirTemp("", "mhubsa-mut-")
 		if err != nil {
@@ -106,6 +106,59 @@ func run(r *report.Report, f rules.PropertyFunc, tier, mutantSpec string) (code 
 		r.InfraErr = err.Error()
 		return r.Finish()
 	}
+	var allDead map[string]bool
+	if mode := os.Getenv("MHUBSA_INLINEALL"); mode != "" {
+		// development aid: check the program with every translatable private helper inlined (what a
+		// maintainer's inlining refactorings converge to); mode "thin" keeps multi-statement shared helpers
+		keep := func(h, caller *types.Func, shared, thin bool) bool {
+			if strings.HasPrefix(mode, "only:") {
+				// one helper inlined everywhere, the rest of the pipeline (fallback included) as usual: what a
+				// maintainer's "inline function" refactoring produces
+				return h.FullName() == strings.TrimPrefix(mode, "only:")
+			}
+			if mode == "thin" {
+				return thin || !shared
+			}
+			return true
+		}
+		ov := map[string][]byte{}
+		for k, v := range overlay {
+			ov[k] = v
+		}
+		dead := map[string]bool{}
+		ctr := 0
+		for round := 0; round < 6; round++ {
+			res := norm.Round(l, keep, ov, dead, &ctr)
+			if len(res.Inlined) == 0 {
+				break
+			}
+			nl, err := load.Load(load.Options{Module: "module", Patterns: []string{"./x/...", "./app/..."}, Full: false, Overlay: res.Overlay})
+			if err != nil {
+				r.InfraErr = "inline-all: " + err.Error()
+				return r.Finish()
+			}
+			if os.Getenv("MHUBSA_INLINEQUIET") == "" {
+				fmt.Fprintf(os.Stderr, "inline-all round %d: %d call sites: %s\n", round, len(res.Inlined), strings.Join(res.Inlined, "; "))
+			}
+			ov, dead, l = res.Overlay, res.Dead, nl
+		}
+		overlay, allDead = ov, dead
+		if d := os.Getenv("MHUBSA_DUMPNORM"); d != "" {
+			for name, b := range overlay {
+				os.WriteFile(filepath.Join(d, filepath.Base(name)), b, 0o644)
+			}
+		}
+		l, err = load.Load(load.Options{Module: "module", Patterns: []string{"./x/...", "./app/..."}, Full: tier == "thorough", Overlay: overlay, Dead: allDead})
+		if err != nil {
+			r.InfraErr = "inline-all: " + err.Error()
+			return r.Finish()
+		}
+		if !strings.HasPrefix(mode, "only:") {
+			os.Setenv("MHUBSA_NONORM", "1")
+		} else if len(allDead) == 0 {
+			fmt.Fprintln(os.Stderr, "inline-only: helper not inlined everywhere (kept)")
+		}
+	}
 	p := ana.NewProg(l)
 	r.Analysed["packages_module"] = l.NPkgs
 	r.Analysed["root_packages_module"] = len(l.Roots)
@@ -115,7 +168,7 @@ func run(r *report.Report, f rules.PropertyFunc, tier, mutantSpec string) (code 
 		ne += len(es)
 	}
 	r.Analysed["callgraph_edges_module"] = ne
-	c := &rules.Ctx{R: r, P: p, Tier: tier, Overlay: overlay, Fold: &rules.FoldSet{M: map[*ssa.Function]bool{}}}
+	c := &rules.Ctx{R: r, P: p, Tier: tier, Overlay: overlay, Dead: allDead, Fold: &rules.FoldSet{M: map[*ssa.Function]bool{}}}
 	// a check may find that a function it cannot classify is a private helper of one caller; it then
 	// registers the helper and the check is run again with the helper folded into that caller
 	for pass := 0; ; pass++ {
@@ -300,6 +353,31 @@ func normalisedRun(r *report.Report, c *rules.Ctx, f rules.PropertyFunc, tier st
 		}
 		return false
 	}
+	// near: what the functions a violation points at call (two levels of resolved static calls)
+	near := map[string]bool{}
+	for _, pr := range progs {
+		var frontier []*ssa.Function
+		for _, fn := range pr.AllFuncs {
+			if tf, _ := ana.Outermost(fn).Object().(*types.Func); tf != nil && sus[tf.FullName()] {
+				frontier = append(frontier, fn)
+			}
+		}
+		for depth := 0; depth < 2; depth++ {
+			var next []*ssa.Function
+			for _, fn := range frontier {
+				for _, e := range pr.Out[fn] {
+					if e.Kind != "static" && e.Kind != "closure" {
+						continue
+					}
+					if tf, _ := ana.Outermost(e.Callee).Object().(*types.Func); tf != nil && !near[tf.FullName()] {
+						near[tf.FullName()] = true
+						next = append(next, e.Callee)
+					}
+				}
+			}
+			frontier = next
+		}
+	}
 	rawStages := []func(h, caller *types.Func, shared, thin bool) bool{
 		func(h, caller *types.Func, shared, thin bool) bool {
 			return sus[caller.FullName()] && !sus[h.FullName()] && !sem[h.FullName()]
@@ -311,6 +389,13 @@ func normalisedRun(r *report.Report, c *rules.Ctx, f rules.PropertyFunc, tier st
 				return shared || !sem[h.FullName()]
 			}
 			return false
+		},
+		// ... and the helpers of what those functions call
+		func(h, caller *types.Func, shared, thin bool) bool {
+			if sus[caller.FullName()] && !sus[h.FullName()] {
+				return shared || !sem[h.FullName()]
+			}
+			return near[caller.FullName()] && !sus[h.FullName()] && !sem[h.FullName()]
 		},
 		func(h, caller *types.Func, shared, thin bool) bool {
 			if shared || thin {
@@ -354,6 +439,11 @@ func normalisedRun(r *report.Report, c *rules.Ctx, f rules.PropertyFunc, tier st
 		failed := ""
 		for _, ms := range specs {
 			dead := map[string]bool{}
+			if ms.module == "module" {
+				for k := range c.Dead {
+					dead[k] = true
+				}
+			}
 			var l *load.Loaded
 			if ms.module == "module" {
 				l = c.P.L
@@ -435,6 +525,21 @@ func checkNormalised(r *report.Report, f rules.PropertyFunc, tier string, overla
 		for rule, n := range okBefore {
 			if okAfter[rule] < n {
 				return nil, note + fmt.Sprintf(" — rejected: rule %s discharges %d obligation(s) on the equivalent program, %d on the program as written", rule, okAfter[rule], n)
+			}
+		}
+		// ... and an open obligation must have been decided, not lost: a rule that reported violations
+		// discharges more obligations on the equivalent program than before
+		if os.Getenv("MHUBSA_LAXNORM") == "" {
+			badBefore := map[string]int{}
+			for _, o := range r.Obls {
+				if o.Status == report.Violation && !r.IsOpenKnown(o.Rule, o.Key) && !strings.HasSuffix(o.Rule, ".undecided") && !strings.Contains(o.Key, ".undecided") {
+					badBefore[o.Rule]++
+				}
+			}
+			for rule, nb := range badBefore {
+				if nb > 0 && okAfter[rule] <= okBefore[rule] {
+					return nil, note + fmt.Sprintf(" — rejected: rule %s had %d open obligation(s) on the program as written and discharges no additional obligation on the equivalent program (%d before, %d after): the construct it objected to is no longer examined", rule, nb, okBefore[rule], okAfter[rule])
+				}
 			}
 		}
 		return r2, note
